@@ -35,7 +35,7 @@ PROPS = {
     ),
     "C02": dict(
         title="Launchpad-token solvency",
-        lean=["LP.Props.C02", "LP.Props.C01reachV2", "LP.Props.C01reachV1", "LP.Props.C01reachG1", "LP.Props.C13reachV2", "LP.Props.C14reachG", "LP.Props.C14feeLp"],
+        lean=["LP.Props.C02", "LP.Props.C01reachV2", "LP.Props.C01reachV1", "LP.Props.C01reachG1", "LP.Props.C13reachV2", "LP.Props.C14reachG", "LP.Props.C14feeLp", "LP.Props.C02reach"],
         profiles=[("life", ALL_VARIANTS), ("reserve", GUAR)],
         R={"st": [({"deposit"}, None), ({"claim", "claimPayment"}, FUNDS_MSGS)],
            "xf.lp": {"claim", "claimPayment"}, "lock": ANY},
@@ -88,7 +88,7 @@ PROPS = {
     ),
     "C09": dict(
         title="Each participant settles exactly once",
-        lean=["LP.Props.C09", "LP.Props.C01reachG1", "LP.Props.C14reach", "LP.Props.C13reachV2", "LP.Props.C14reachG"],
+        lean=["LP.Props.C09", "LP.Props.C01reachG1", "LP.Props.C14reach", "LP.Props.C13reachV2", "LP.Props.C14reachG", "LP.Props.C02reach"],
         profiles=[("life", ALL_VARIANTS), ("vest", ["guarV1", "guarV2"])],
         R={"st": ({"claim"}, None), "xf": {"claim"}, "lock": {"claim"}, "sft": {"claim"}},
         D={k: {"claim"} for k in ["addr.cl", "addr.ut", "addr.uc", "addr.win", "addr.range", "addr.conf"]},
@@ -142,7 +142,7 @@ PROPS = {
     ),
     "C16": dict(
         title="Locked split",
-        lean=["LP.Props.C16"],
+        lean=["LP.Props.C16", "LP.Props.C02reach"],
         profiles=[("life", ["locked", "lockedGuar"]), ("deploy", ["locked", "lockedGuar"])],
         R={"lock": ANY, "xf.lp": {"claim"}, "st": ({"deploy"}, None)},
         D={"lockcfg": ANY},
